@@ -618,7 +618,7 @@ def _run_sc(sc):
 
 
 def run(ctx, scale=1):
-    nsc = ctx.pick(32, 900) * scale
+    nsc = ctx.pick(24, 900) * scale
     nfiles = ctx.pick(14, 16)
     scs = []
     # corpus first: the F3 witness, CRLF first line, bare CR, no trailing newline
